@@ -105,6 +105,10 @@ def fenced_case(rng):
     lines = [ind + c * n + info] + [(ind + l) if l else "" for l in body]
     if closed:
         lines.append(ind + c * (n + rng.randint(0, 2)))
+    if container in ("quote", "quote-in-list", "bullet", "ordered") and rng.random() < 0.35:
+        # the code is not the first block of its container: a paragraph and a blank line come first (a quote that does not start with code is
+        # extracted by the lazy-continuation loop, not by the strict branch)
+        lines = [rng.choice(["intro", "intro words", "*intro*"]), ""] + lines
     doc = "\n".join(wrap(lines, container)) + "\n"
     if container == "top" and k < 2 and rng.random() < 0.45:
         # directly (no blank line) after a block that a fence interrupts: the block ends, the fenced block is a sibling at top level
